@@ -55,7 +55,7 @@ impl<'a> Symbol<'a> {
             Symbol::Import(i) => Some(i.get_qualified_name()),
             Symbol::Interface(i, pkg) => Some(format!("{}.{}", pkg.name, i.name)),
             Symbol::Parcelable(p, pkg) => Some(format!("{}.{}", pkg.name, p.name)),
-            Symbol::Enum(e, pkg) => Some(format!("{}{}", pkg.name, e.name)),
+            Symbol::Enum(e, pkg) => Some(format!("{}.{}", pkg.name, e.name)),
             Symbol::Method(m, i) => Some(format!("{}::{}", i.name, m.name)),
             Symbol::Arg(a, _) => a.name.clone(),
             Symbol::Const(c, o) => Some(format!("{}::{}", o.get_name(), c.name)),
